@@ -177,7 +177,8 @@ CHECKS = {
         "uninterrupted real run vs the model's effect list, (ii) fault injection at every effect boundary of real runs (kill = BaseException before the "
         "effect, rollback), rerun, comparison with the uninterrupted run; torn writes for direct file writes (all writes in thorough).",
         note=NOTE_STD + "Effects are atomic and ordered: fsync ordering, power loss and SQLite journal recovery are below the model (that is why this is partial). "
-        "The damaged page versions left by the commits inside remove_file_by_name are arbitrary in the model. next_ids.json / whitelist are outside the store model.",
+        "The damaged page versions left by the commits inside remove_file_by_name are arbitrary in the model. next_ids.json / whitelist are outside the store model. "
+        "A modify date lost when the kill falls inside the removal of a page is a recorded known finding.",
         technique="Lean 4 proof (crash-state invariant over effect prefixes, refinement to C06's big-step reindex) + trace correspondence + fault injection",
         design="§4 C13",
     ),
@@ -185,7 +186,8 @@ CHECKS = {
         text="Lean theorems about a model of _zid_manager.py transcribed character by character (odometer rank induction: "
         "uniqueness for every allocation sequence and restart pattern, shape, exhaustion point; the generated exclusion list "
         "is re-checked by decide +kernel). Model tied to the code by exhaustive comparison of the complete 135k successor chain "
-        "and sampled allocation interleavings; allocated ZIDs are lexed by both real lexers and recompiled.",
+        "and sampled allocation interleavings; allocated ZIDs are lexed by both real lexers and recompiled; is_zid over every calendar day 2000-2099; "
+        "index-level allocation histories (all notes of a day leave, the database is created again, a new note of that day).",
         note="Trusted: Lean kernel, axioms propext/Classical.choice/Quot.sound, harness/translate.py, the correspondence harness; "
         "file IO atomic. The last-suffix off-by-one is a recorded known finding.",
         technique="Lean 4 proof (odometer induction + allocation invariant) + exhaustive chain correspondence",
